@@ -115,6 +115,15 @@ theorem cache_doCompute_c11_pin (computedNode__nil : Bool) :
 theorem cache_doCompute_c12_pin (computedNode__nil : Bool) :
     Gen.CacheWrite.cache_doCompute_c12 computedNode__nil = computedNode__nil := by pin_tac Gen.CacheWrite.cache_doCompute_c12
 
+theorem cache_doCompute_s0_pin (op : BitVec 64) :
+    Gen.CacheWrite.cache_doCompute_s0 op = (op == (0#64)) := by pin_tac Gen.CacheWrite.cache_doCompute_s0
+
+theorem cache_doCompute_s1_pin (op : BitVec 64) :
+    Gen.CacheWrite.cache_doCompute_s1 op = (op == (1#64)) := by pin_tac Gen.CacheWrite.cache_doCompute_s1
+
+theorem cache_doCompute_s2_pin (op : BitVec 64) :
+    Gen.CacheWrite.cache_doCompute_s2 op = (op == (2#64)) := by pin_tac Gen.CacheWrite.cache_doCompute_s2
+
 theorem cache_doCompute_a2_pin :
     Gen.CacheWrite.cache_doCompute_a2  = true := by pin_tac Gen.CacheWrite.cache_doCompute_a2
 
@@ -217,6 +226,15 @@ theorem cache_runTask_c6_pin (c_withExpiration : Bool) :
 theorem cache_runTask_c7_pin (c_withEviction : Bool) :
     Gen.CacheWrite.cache_runTask_c7 c_withEviction = c_withEviction := by pin_tac Gen.CacheWrite.cache_runTask_c7
 
+theorem cache_runTask_s0_pin (t_writeReason : BitVec 8) :
+    Gen.CacheWrite.cache_runTask_s0 t_writeReason = (t_writeReason == (1#8)) := by pin_tac Gen.CacheWrite.cache_runTask_s0
+
+theorem cache_runTask_s1_pin (t_writeReason : BitVec 8) :
+    Gen.CacheWrite.cache_runTask_s1 t_writeReason = (t_writeReason == (3#8)) := by pin_tac Gen.CacheWrite.cache_runTask_s1
+
+theorem cache_runTask_s2_pin (t_writeReason : BitVec 8) :
+    Gen.CacheWrite.cache_runTask_s2 t_writeReason = (t_writeReason == (2#8)) := by pin_tac Gen.CacheWrite.cache_runTask_s2
+
 theorem cache_getTask_c0_pin (ok : Bool) :
     Gen.CacheWrite.cache_getTask_c0 ok = (!ok) := by pin_tac Gen.CacheWrite.cache_getTask_c0
 
@@ -295,6 +313,9 @@ theorem siteParams_pin : Gen.CacheWrite.siteParams = [("cache_set_c0", ["oldVisi
   ("cache_doCompute_c10", ["old_HasExpired_nowNano", "oldnot_nil"]),
   ("cache_doCompute_c11", ["computedNode__nil"]),
   ("cache_doCompute_c12", ["computedNode__nil"]),
+  ("cache_doCompute_s0", ["op"]),
+  ("cache_doCompute_s1", ["op"]),
+  ("cache_doCompute_s2", ["op"]),
   ("cache_doCompute_a2", []),
   ("cache_doCompute_a6", []),
   ("cache_afterWrite_c0", ["c_withMaintenance"]),
@@ -329,6 +350,9 @@ theorem siteParams_pin : Gen.CacheWrite.siteParams = [("cache_set_c0", ["oldVisi
   ("cache_runTask_c5", ["c_withEviction"]),
   ("cache_runTask_c6", ["c_withExpiration"]),
   ("cache_runTask_c7", ["c_withEviction"]),
+  ("cache_runTask_s0", ["t_writeReason"]),
+  ("cache_runTask_s1", ["t_writeReason"]),
+  ("cache_runTask_s2", ["t_writeReason"]),
   ("cache_getTask_c0", ["ok"]),
   ("cache_getTask_a2", ["writeReason"]),
   ("cache_getTask_a3", ["cause"]),
@@ -345,33 +369,33 @@ theorem siteParams_pin : Gen.CacheWrite.siteParams = [("cache_set_c0", ["oldVisi
   ("cache_evictNodes_c0", ["c_withEviction"]),
   ("cache_climb_c0", ["c_withEviction"])] := by rfl
 
-theorem shape_pin : Gen.CacheWrite.shape = [("cache_Set", [0, 0, 0, 1, 0, 0]),
-  ("cache_SetIfAbsent", [0, 0, 0, 1, 0, 0]),
-  ("cache_set", [4, 0, 4, 0, 0, 0]),
-  ("cache_atomicSet", [3, 0, 5, 1, 0, 0]),
-  ("cache_atomicDelete", [2, 0, 2, 1, 0, 0]),
-  ("cache_Compute", [0, 0, 0, 1, 0, 0]),
-  ("cache_ComputeIfAbsent", [3, 0, 2, 1, 0, 0]),
-  ("cache_ComputeIfPresent", [2, 0, 2, 1, 0, 0]),
-  ("cache_doCompute", [13, 0, 7, 0, 1, 0]),
-  ("cache_afterWrite", [3, 0, 0, 0, 0, 0]),
-  ("cache_Invalidate", [1, 0, 2, 0, 0, 0]),
-  ("cache_deleteNodeFromMap", [2, 0, 2, 0, 0, 0]),
-  ("cache_deleteNode", [0, 0, 0, 0, 0, 0]),
-  ("cache_afterDelete", [3, 0, 1, 0, 0, 0]),
-  ("cache_notifyDeletion", [1, 0, 0, 0, 0, 0]),
-  ("cache_notifyAtomicDeletion", [1, 0, 0, 0, 0, 0]),
-  ("cache_evictNode", [4, 0, 3, 0, 0, 0]),
-  ("cache_evictNodeBySize", [0, 0, 0, 0, 0, 0]),
-  ("cache_InvalidateAll", [3, 0, 7, 0, 0, 1]),
-  ("cache_runTask", [8, 0, 2, 0, 0, 0]),
-  ("cache_getTask", [1, 0, 4, 2, 0, 0]),
-  ("cache_putTask", [0, 0, 4, 0, 0, 0]),
-  ("cache_makeRetired", [1, 0, 0, 0, 0, 0]),
-  ("cache_makeDead", [3, 0, 0, 0, 0, 0]),
-  ("cache_onAccess", [3, 0, 0, 0, 0, 0]),
-  ("cache_expireNodes", [1, 0, 0, 0, 0, 0]),
-  ("cache_evictNodes", [1, 0, 0, 0, 0, 0]),
-  ("cache_climb", [1, 0, 0, 0, 0, 0])] := by rfl
+theorem shape_pin : Gen.CacheWrite.shape = [("cache_Set", [0, 0, 0, 1, 0, 0, 0]),
+  ("cache_SetIfAbsent", [0, 0, 0, 1, 0, 0, 0]),
+  ("cache_set", [4, 0, 4, 0, 0, 0, 0]),
+  ("cache_atomicSet", [3, 0, 5, 1, 0, 0, 0]),
+  ("cache_atomicDelete", [2, 0, 2, 1, 0, 0, 0]),
+  ("cache_Compute", [0, 0, 0, 1, 0, 0, 0]),
+  ("cache_ComputeIfAbsent", [3, 0, 2, 1, 0, 0, 0]),
+  ("cache_ComputeIfPresent", [2, 0, 2, 1, 0, 0, 0]),
+  ("cache_doCompute", [13, 0, 7, 0, 1, 0, 3]),
+  ("cache_afterWrite", [3, 0, 0, 0, 0, 0, 0]),
+  ("cache_Invalidate", [1, 0, 2, 0, 0, 0, 0]),
+  ("cache_deleteNodeFromMap", [2, 0, 2, 0, 0, 0, 0]),
+  ("cache_deleteNode", [0, 0, 0, 0, 0, 0, 0]),
+  ("cache_afterDelete", [3, 0, 1, 0, 0, 0, 0]),
+  ("cache_notifyDeletion", [1, 0, 0, 0, 0, 0, 0]),
+  ("cache_notifyAtomicDeletion", [1, 0, 0, 0, 0, 0, 0]),
+  ("cache_evictNode", [4, 0, 3, 0, 0, 0, 0]),
+  ("cache_evictNodeBySize", [0, 0, 0, 0, 0, 0, 0]),
+  ("cache_InvalidateAll", [3, 0, 7, 0, 0, 1, 0]),
+  ("cache_runTask", [8, 0, 2, 0, 0, 0, 3]),
+  ("cache_getTask", [1, 0, 4, 2, 0, 0, 0]),
+  ("cache_putTask", [0, 0, 4, 0, 0, 0, 0]),
+  ("cache_makeRetired", [1, 0, 0, 0, 0, 0, 0]),
+  ("cache_makeDead", [3, 0, 0, 0, 0, 0, 0]),
+  ("cache_onAccess", [3, 0, 0, 0, 0, 0, 0]),
+  ("cache_expireNodes", [1, 0, 0, 0, 0, 0, 0]),
+  ("cache_evictNodes", [1, 0, 0, 0, 0, 0, 0]),
+  ("cache_climb", [1, 0, 0, 0, 0, 0, 0])] := by rfl
 
 end OtterVerif.Pin.CacheWrite
